@@ -23,7 +23,8 @@ RULE = ('seeded random cases per entry point: assign (n frames 0..8, k centers 0
         'KMedoids fit on X then predict on Y with fewer/equal/more frames than centers; find_cluster_centers '
         '(labels with gaps/negatives, ties, inf); ClusterResult.partition (equal, unequal, length-1, single, '
         'occasionally zero-length trajectories; center indices always include first and last frame of every '
-        'trajectory; lengths/indices as list or ndarray; a few inconsistent inputs for the error branch); '
+        'trajectory; lengths/indices as list, int64 ndarray or int32 ndarray; every argument snapshotted before/'
+        'after, the same ClusterResult partitioned twice; a few inconsistent inputs for the error branch); '
         'partition_list / partition_indices directly; compute_batches; batch_reassign on generated .h5 '
         'trajectories (2 cases quick, more in thorough). Non-trivial = at least one frame and the entry '
         'point has a real choice to make (k>=2, >=1 label, >=1 center index, >=1 trajectory); distinct by '
@@ -75,6 +76,30 @@ def close(x, y, tol=1e-9):
 
 def ints(a):
     return [int(v) for v in a]
+
+
+def as_container(vals, how):
+    """python list / int64 ndarray / int32 ndarray ('ndarray' = int64, older corpus files)"""
+    if how == 'list':
+        return list(vals)
+    if how == 'int32':
+        return np.array(vals, dtype=np.int32)
+    return np.array(vals, dtype=np.int64)
+
+
+def snapshot(x):
+    if isinstance(x, np.ndarray):
+        return ('ndarray', str(x.dtype), tuple(x.shape), x.tobytes())
+    return ('list', [v for v in x])
+
+
+def call_real(fn, *args, **kw):
+    """run the real code; ('ok', value) or ('error', kind, text) - never raises"""
+    try:
+        with _Quiet():
+            return ('ok', fn(*args, **kw))
+    except Exception as e:  # noqa
+        return ('error', exc_kind(e), '%s: %s' % (type(e).__name__, str(e)[:200]))
 
 
 class _Quiet:
@@ -300,8 +325,8 @@ def gen_partition(rng):
     case = {'kind': 'partition', 'lens': lens, 'lens_how': how,
             'a': [int(v) for v in rng.integers(0, 4, size=n)],
             'd': [float(v) / 2 for v in rng.integers(0, 7, size=n)],
-            'ci': ci, 'lens_type': 'ndarray' if rng.random() < 0.5 else 'list',
-            'ci_type': 'ndarray' if rng.random() < 0.5 else 'list', 'valid': True}
+            'ci': ci, 'lens_type': ['list', 'int64', 'int32'][int(rng.integers(0, 3))],
+            'ci_type': ['list', 'int64', 'int64', 'int32'][int(rng.integers(0, 4))], 'valid': True}
     r = rng.random()
     if r < 0.04 and n:
         case['ci'] = case['ci'] + [n, n + 2, -1]      # outside the property: what the code does
@@ -330,7 +355,8 @@ def gen_pidx(rng):
     n = sum(lens)
     inds = [int(v) for v in rng.integers(0, max(n, 1), size=int(rng.integers(0, 8)))] if n else []
     case = {'kind': 'pidx', 'lens': lens, 'lens_how': how, 'inds': inds, 'valid': True,
-            'as_array': bool(rng.random() < 0.5)}
+            'inds_type': ['list', 'int64', 'int64', 'int32'][int(rng.integers(0, 4))],
+            'lens_type': ['list', 'int64', 'int32'][int(rng.integers(0, 3))]}
     if rng.random() < 0.08:
         case['inds'] = inds + [n, -1, n + 3]
         case['valid'] = False
@@ -373,7 +399,16 @@ def do_assign(ctx, case):
     C = data_array(case['C'], case)
     centers = wrap_centers(C, case['wrapper'])
     perframe = case['wrapper'] == 'xyz' and k > n
-    a, d = assign_to_nearest_center(X, centers, metric)
+    r = call_real(assign_to_nearest_center, X, centers, metric)
+    if r[0] == 'error':
+        ctx.case(case, nontrivial=n >= 1 and k >= 2, tags=['assign', 'assign:raised'])
+        ctx.violation('assign_to_nearest_center raised %s (n=%d frames, k=%d centers)' % (r[2], n, k), case)
+        return None
+    try:
+        a, d = r[1]
+    except Exception:  # noqa
+        ctx.violation('assign_to_nearest_center did not return (assignments, distances)', case)
+        return None
     T, O = tables(metric, oracle, X, C, perframe)
     ties = bool(n and k and any((O[f] == O[f].min()).sum() > 1 for f in range(n)))
     ctx.case(case, nontrivial=n >= 1 and k >= 2,
@@ -442,7 +477,12 @@ def do_predict(ctx, case):
         return None
     Y = data_array(case['Y'], case)
     m = len(Y)
-    res = est.predict(Y)
+    r = call_real(est.predict, Y)
+    if r[0] == 'error':
+        ctx.case(case, nontrivial=m >= 1 and k >= 2, tags=['predict', 'predict:raised'])
+        ctx.violation('%s.predict raised %s (m=%d frames, k=%d centers)' % (case['est'], r[2], m, k), case)
+        return None
+    res = r[1]
     C = [np.asarray(c) for c in centers]
     T, O = tables(metric, oracle, Y, C, False)
     ctx.case(case, nontrivial=m >= 1 and k >= 2,
@@ -544,26 +584,50 @@ def do_partition(ctx, case):
     lens = case['lens']
     a = np.array(case['a'], dtype=int)
     d = np.array(case['d'], dtype=float)
-    ci = np.array(case['ci'], dtype=int) if case['ci_type'] == 'ndarray' else list(case['ci'])
-    L = np.array(lens, dtype=int) if case['lens_type'] == 'ndarray' else list(lens)
+    ci = as_container(case['ci'], case['ci_type'])
+    L = as_container(lens, case['lens_type'])
     centers = object()
     res0 = ClusterResult(center_indices=ci, distances=d, assignments=a, centers=centers)
     snap = (a.tobytes(), d.tobytes())
+    snap_ci, snap_L = snapshot(ci), snapshot(L)
+
+    def canon_result(r):
+        return {'ok': {'assignments': canon_parts(r.assignments, False),
+                       'distances': canon_parts(r.distances, True),
+                       'center_indices': [[int(t), int(f)] for t, f in r.center_indices]}}
     try:
         with _Quiet():
             res = res0.partition(L)
-        out = {'ok': {'assignments': canon_parts(res.assignments, False),
-                      'distances': canon_parts(res.distances, True),
-                      'center_indices': [[int(t), int(f)] for t, f in res.center_indices]}}
+        out = canon_result(res)
     except Exception as e:  # noqa
-        res, out = None, {'error': exc_kind(e)}
+        res, out = None, {'error': exc_kind(e), 'text': '%s: %s' % (type(e).__name__, str(e)[:200])}
+    # splitting preserves every value: the flat result must survive its own partition, and
+    # partitioning the SAME result again must give the same answer
+    preserved = None
+    if res is not None:
+        if res0.center_indices is not ci or snapshot(ci) != snap_ci:
+            preserved = ('the flat center indices of the ClusterResult were overwritten by partition '
+                         '(%s %s -> %s)' % (case['ci_type'], case['ci'], ints(res0.center_indices)))
+        elif snapshot(L) != snap_L:
+            preserved = 'the lengths argument was overwritten by partition'
+        else:
+            try:
+                with _Quiet():
+                    out2 = canon_result(res0.partition(L))
+            except Exception as e:  # noqa
+                out2 = {'error': exc_kind(e)}
+            if out2 != out:
+                preserved = 'partitioning the same ClusterResult a second time gives a different result'
+            elif snapshot(ci) != snap_ci:
+                preserved = 'the flat center indices were overwritten by the second partition'
     equal = all(x == lens[0] for x in lens)
     starts = [sum(lens[:t]) for t in range(len(lens))]
     on_first = any(i in starts for i in case['ci'])
     on_last = any(i in [s + l - 1 for s, l in zip(starts, lens) if l] for i in case['ci'])
     ctx.case(case, nontrivial=len(a) >= 1 and case['valid'],
              tags=['partition', 'partition:' + ('square' if equal else 'ragged'),
-                   'partition:lens=' + case['lens_how'], 'partition:lens_type=' + case['lens_type']] +
+                   'partition:lens=' + case['lens_how'], 'partition:lens_type=' + case['lens_type'],
+                   'partition:ci_type=' + case['ci_type']] +
                   (['partition:has-len1'] if 1 in lens else []) +
                   (['partition:center-on-first-frame'] if on_first else []) +
                   (['partition:center-on-last-frame'] if on_last else []) +
@@ -571,7 +635,8 @@ def do_partition(ctx, case):
     if case['valid'] or case.get('invalid') == 'index-out-of-range':
         what = None
         if res is None:
-            what = 'raised %s on consistent input' % out['error']
+            if case['valid']:
+                what = 'raised %s on consistent input' % out['text']
         else:
             for name, flat, part in (('assignments', a, res.assignments), ('distances', d, res.distances)):
                 c = out['ok'][name]
@@ -606,9 +671,12 @@ def do_partition(ctx, case):
                             break
         if what is None and (a.tobytes(), d.tobytes()) != snap:
             what = 'flat arrays were modified'
+        if what is None and case['valid']:
+            what = preserved
         if what:
             ctx.violation('ClusterResult.partition: ' + what, case)
             return None
+    out.pop('text', None)
     req = {'op': 'C10.partition', 'assignments': case['a'], 'distances': [frac(v) for v in case['d']],
            'center_indices': case['ci'], 'lens': lens}
 
@@ -623,8 +691,10 @@ def do_plist(ctx, case):
     from enspara.ra.ra import partition_list
     lens, l = case['lens'], case['l']
     arg = np.array(l, dtype=int) if case['as_array'] else list(l)
+    larg = list(lens)
+    snap = (snapshot(arg), snapshot(larg))
     try:
-        got = partition_list(arg, lens)
+        got = partition_list(arg, larg)
         out = {'ok': [ints(p) for p in got]}
     except Exception as e:  # noqa
         out = {'error': exc_kind(e)}
@@ -639,6 +709,9 @@ def do_plist(ctx, case):
             ctx.violation('partition_list: pieces do not have the given lengths / do not concatenate '
                           'back to the list', case)
             return None
+        if (snapshot(arg), snapshot(larg)) != snap:
+            ctx.violation('partition_list overwrote the list it partitions (values not preserved)', case)
+            return None
     req = {'op': 'C10.partition_list', 'l': l, 'lens': lens}
 
     def compare(r):
@@ -650,13 +723,29 @@ def do_plist(ctx, case):
 def do_pidx(ctx, case):
     from enspara.ra.ra import partition_indices
     lens, inds = case['lens'], case['inds']
-    arg = np.array(inds, dtype=int) if case['as_array'] else list(inds)
-    larg = np.array(lens, dtype=int) if case['as_array'] else list(lens)
-    got = partition_indices(arg, larg)
-    out = {'ok': [[int(t), int(f)] for t, f in got]}
+    it = case.get('inds_type', 'int64' if case.get('as_array') else 'list')
+    lt = case.get('lens_type', 'int64' if case.get('as_array') else 'list')
+    arg, larg = as_container(inds, it), as_container(lens, lt)
+    snap = (snapshot(arg), snapshot(larg))
     starts = [sum(lens[:t]) for t in range(len(lens))]
     ctx.case(case, nontrivial=len(inds) >= 1 and case['valid'],
-             tags=['pidx', 'pidx:lens=' + case['lens_how']] + ([] if case['valid'] else ['pidx:out-of-range']))
+             tags=['pidx', 'pidx:lens=' + case['lens_how'], 'pidx:inds_type=' + it, 'pidx:lens_type=' + lt] +
+                  ([] if case['valid'] else ['pidx:out-of-range']))
+
+    def canon(got):
+        return {'ok': [[int(t), int(f)] for t, f in got]}
+    r = call_real(partition_indices, arg, larg)
+    if r[0] == 'error':
+        if case['valid']:
+            ctx.violation('partition_indices raised %s on in-range indices' % r[2], case)
+            return None
+        out = {'error': r[1]}
+    else:
+        try:
+            out = canon(r[1])
+        except Exception:  # noqa
+            ctx.violation('partition_indices did not return (trajectory, frame) pairs', case)
+            return None
     if case['valid']:
         what = None
         if len(out['ok']) != len(inds):
@@ -666,6 +755,14 @@ def do_pidx(ctx, case):
                 if not (0 <= t < len(lens) and 0 <= f < lens[t] and starts[t] + f == i):
                     what = 'flat index %d became (%d, %d) for lengths %s' % (i, t, f, lens)
                     break
+        if what is None and (snapshot(arg), snapshot(larg)) != snap:
+            what = ('the caller\'s %s of flat indices was overwritten (%s -> %s): the values are not '
+                    'preserved and the same indices no longer address the same frames'
+                    % (it, inds, ints(arg)))
+        if what is None:
+            r2 = call_real(partition_indices, arg, larg)
+            if r2[0] == 'error' or canon(r2[1]) != out:
+                what = 'a second call with the same arguments gives a different result'
         if what:
             ctx.violation('partition_indices: ' + what, case)
             return None
@@ -680,8 +777,12 @@ def do_pidx(ctx, case):
 def do_batches(ctx, case):
     from enspara.cluster.util import compute_batches
     lens, b = case['lens'], case['batch_size']
-    got = compute_batches(list(lens), b)
-    out = {'ok': [ints(x) for x in got]}
+    r = call_real(compute_batches, list(lens), b)
+    if r[0] == 'error':
+        ctx.case(case, nontrivial=len(lens) >= 1, tags=['batches', 'batches:raised'])
+        ctx.violation('compute_batches raised %s' % r[2], case)
+        return None
+    out = {'ok': [ints(x) for x in r[1]]}
     ctx.case(case, nontrivial=len(lens) >= 1,
              tags=['batches', 'batches:n=%d' % len(out['ok'])] +
                   (['batches:first-empty'] if lens and not out['ok'][0] else []))
@@ -796,12 +897,35 @@ def process(ctx, cases):
     pending = []
     with threadpool_limits(limits=1, user_api='openmp'):
         for case in cases:
-            r = DO[case['kind']](ctx, case)
+            try:
+                r = DO[case['kind']](ctx, case)
+            except Exception as e:  # noqa - nothing may escape: classify by where it was raised
+                report_escaped(ctx, case, e)
+                continue
             if r is not None:
-                pending.append(r)
-    resp = ctx.driver([rq for rq, _ in pending])
-    for (_, compare), r in zip(pending, resp):
-        compare(r)
+                pending.append((case, r))
+    resp = ctx.driver([rq for _, (rq, _) in pending])
+    for (case, (_, compare)), r in zip(pending, resp):
+        try:
+            compare(r)
+        except Exception as e:  # noqa
+            report_escaped(ctx, case, e)
+
+
+def report_escaped(ctx, case, e):
+    """an exception that no per-call handler caught"""
+    import traceback
+    frames = traceback.extract_tb(e.__traceback__)
+    in_real = any((os.sep + 'enspara' + os.sep) in fr.filename for fr in frames)
+    where = '%s:%d' % (os.path.basename(frames[-1].filename), frames[-1].lineno) if frames else '?'
+    text = '%s: %s at %s' % (type(e).__name__, str(e)[:200], where)
+    if in_real and case.get('valid', True):
+        ctx.violation('%s: the implementation raised %s on a valid case' % (case['kind'], text), case)
+    elif in_real:
+        ctx.disagreement('%s: the implementation raised %s (input outside the property)' % (case['kind'], text),
+                         case)
+    else:
+        ctx.disagreement('%s: the output could not be judged (%s)' % (case['kind'], text), case)
 
 
 def fixed_cases():
@@ -816,12 +940,14 @@ def fixed_cases():
                         'X': X, 'C': C, 'wrapper': w})
     for lens in ([1], [1, 1], [3], [2, 2], [1, 2], [2, 1], [1, 3, 1], [3, 3, 3], [1, 1, 4]):
         n = sum(lens)
-        for lt in ('list', 'ndarray'):
+        for lt in ('list', 'int64', 'int32'):
             out.append({'kind': 'partition', 'lens': lens, 'lens_how': 'fixed', 'a': list(range(n)),
                         'd': [v / 2 for v in range(n)], 'ci': list(range(n)), 'lens_type': lt,
                         'ci_type': lt, 'valid': True})
-        out.append({'kind': 'pidx', 'lens': lens, 'lens_how': 'fixed', 'inds': list(range(n)) + list(range(n))[::-1],
-                    'valid': True, 'as_array': False})
+        for it in ('list', 'int64', 'int32'):
+            out.append({'kind': 'pidx', 'lens': lens, 'lens_how': 'fixed',
+                        'inds': list(range(n)) + list(range(n))[::-1], 'valid': True,
+                        'inds_type': it, 'lens_type': 'list' if it == 'int32' else it})
         out.append({'kind': 'plist', 'lens': lens, 'lens_how': 'fixed', 'l': list(range(10, 10 + n)),
                     'as_array': True})
     out.append({'kind': 'find', 'a': [2, 0, 2, 0, 5], 'd': [1.0, 3.0, 1.0, 2.0, None]})
